@@ -512,15 +512,18 @@ func (r *Adaptation) acceptPluginConnections(l net.Listener) error {
 			}
 
 			r.requestPluginSync()
+			verifHook("sync.exclusive")
 
 			err = r.syncFn(ctx, p.synchronize)
 			if err != nil {
 				log.Infof(ctx, "failed to synchronize plugin: %v", err)
 			} else {
+				verifHook("sync.snapshotDone")
 				r.Lock()
 				r.plugins = append(r.plugins, p)
 				r.sortPlugins()
 				r.Unlock()
+				verifHook("sync.activated")
 				log.Infof(ctx, "plugin %q connected and synchronized", p.name())
 			}
 
